@@ -97,3 +97,20 @@ Definition ex_cross_history : list op := ex_warm ++ ex_supply2 ++ [ex_cross_over
 Definition ex_history : list op :=
   ex_warm ++ [ex_f1_borrow; ex_over_borrow; ex_borrow; ex_draw_over; OSetPrice 3 (Some 40000000000); ex_repay; ex_draw;
               ex_withdraw_pledged; ex_close_pledged; ex_withdraw_free; OCalc 1 [mkBI 0 1000000000000000000 100000000000000000] [0; 0]].
+
+(* the witness of finding C08-F2 (harness/c08_liq_test.go): user 1's position of asset 2 (id 2) earns
+   313 940 coins of rewards (AvailableToBorrow 1 000 313 940, AmountIn 1 000 000 000), pledges
+   1 000 000 000, the collateral asset crashes and the position is handed over: AmountIn is exhausted,
+   the lend record is deleted with AvailableToBorrow = 313 940 *)
+Definition ex_liq_prefix : list op :=
+  [OLend 2 3 3 1000000000 1 1 0; OLend 1 2 2 1000000000 1 1 0; OLend 3 2 2 2000000000 1 1 0; OLend 2 1 1 1000000000 1 1 0;
+   OBorrow 2 4 1 false 5 1000000000 2 500000000 bi0 bi0;
+   OCalc 1 [] [313940223591148000000000];
+   OBorrow 1 2 4 false 6 1000000000 3 900000 bi0 bi0;
+   OSetPrice 2 (Some 100000)].
+Definition ex_handover : op := OHandOver 2 1 0.
+Definition ex_liq_history : list op := ex_liq_prefix ++ [ex_handover].
+(* the same hand-over when the rewards were pledged too (nothing is left on the record): harmless *)
+Definition ex_liq_clean_history : list op :=
+  [OLend 2 3 3 1000000000 1 1 0; OLend 1 2 2 1000000000 1 1 0; OLend 3 2 2 2000000000 1 1 0;
+   OBorrow 1 2 4 false 6 1000000000 3 900000 bi0 bi0; OSetPrice 2 (Some 100000); OHandOver 1 1 7000000000000000000].
